@@ -6,7 +6,7 @@ from ..tables import (Atoms, TableRun, build_tier, compare_outcomes, declare_tie
 from . import common
 
 
-def tier_table(rep, rule, method, kind, k, extra, modes, call, spec, what, span_inside=None, post=None, eq=None, seams=False, as_atoms=True, span_atoms=True):
+def tier_table(rep, rule, method, kind, k, extra, modes, call, spec, what, span_inside=None, post=None, eq=None, seams=False, as_atoms=True, span_atoms=True, strict_ties=False):
     """Generic: build a well-formed k-entry tier with span [m,M], declare extra atoms, run every mode.
 
     extra(at, ents) -> dict of symbols;  call(I, tier, sy, mode) -> value;  spec(O, ents, m, M, sy, mode) -> dict
@@ -33,7 +33,7 @@ def tier_table(rep, rule, method, kind, k, extra, modes, call, spec, what, span_
             want = run_spec(idx, st, lambda O: spec(O, ents, m, M, sy, mode))
             if want.kind == "ok" and "printed" not in want.value and got.kind == "ok":
                 got.value.pop("printed", None)
-            row = compare_outcomes(I, mode, got, want, eq=eq)
+            row = compare_outcomes(I, mode, got, want, eq=eq, strict_ties=strict_ties)
             if row[1] and row[2] != "dontcare" and got.kind == "ok" and want.kind == "ok" and "printed" in want.value:
                 if bool(got.value.get("printed")) != bool(want.value["printed"]):
                     row = (mode, False, "code %s a warning, spec %s" % ("prints" if got.value.get("printed") else "does not print", "expects one" if want.value["printed"] else "expects none"), None)
